@@ -156,6 +156,67 @@ theorem litToks_interleave {r : String} : ∀ xs : List Tree, AllRule N r xs →
     simp only [interleave, List.filterMap_cons, litTok_nd, litTok_lf, hn]
     simp (config := { decide := true }) [goBlank, List.replicate_succ]
 
+theorem isStarItem_eq (it : Expr × Option String) (h : isStarItem it = true) : it = (.var "*", none) := by
+  obtain ⟨e, a⟩ := it
+  cases e <;> cases a <;> simp [isStarItem] at h ⊢
+  exact h
+
+theorem filter_commaItems : ∀ rest : List (Expr × Option String),
+    ((rest.map (fun x => [N.lf "T__6" ",", projItem N recT x])).flatten).filter (isRuleKid N "oC_ProjectionItem") = rest.map (projItem N recT)
+  | [] => by simp
+  | x :: rest => by
+    have ih := filter_commaItems rest
+    simp only [List.map_cons, List.flatten_cons, List.filter_append, ih]
+    bsimp [projItem]
+
+theorem sizeL_commaItems_mem : ∀ (rest : List (Expr × Option String)) (x : Expr × Option String), x ∈ rest →
+    size (projItem N recT x) ≤ sizeL ((rest.map (fun x => [N.lf "T__6" ",", projItem N recT x])).flatten)
+  | [], _, h => by cases h
+  | y :: rest, x, h => by
+    rcases List.mem_cons.1 h with h | h
+    · subst h; simp; omega
+    · have := sizeL_commaItems_mem rest x h; simp; omega
+
+theorem projItems_ok (items : List (Expr × Option String)) (f : Nat) (hw : wItems recW items = true)
+    (hf : 2 * sizeL (projItemsKids N recT items) + 2 ≤ f) :
+    ∃ xs, mapM' (bProjItem N f) ((projItemsKids N recT items).filter (isRuleKid N "oC_ProjectionItem")) = .ok xs ∧
+      bStar (N.nd "oC_ProjectionItems" (projItemsKids N recT items)) ++ xs = items := by
+  cases items with
+  | nil => exact ⟨[], by simp [projItemsKids, mapM'], by simp [projItemsKids, bStar, litTokens]⟩
+  | cons it rest =>
+    by_cases hs : isStarItem it = true
+    · simp only [wItems, hs, if_true] at hw
+      simp only [projItemsKids, hs, if_true, sizeL_cons', size_lf] at hf
+      refine ⟨rest, ?_, ?_⟩
+      · simp only [projItemsKids, hs, if_true, List.filter_cons, isRuleKid_lf, Bool.false_eq_true, if_false,
+          filter_commaItems hN recT recW Hrec]
+        apply mapM'_map_id
+        intro x hx
+        have := sizeL_commaItems_mem hN recT recW Hrec rest x hx
+        have hwx := (List.all_eq_true.1 hw) x hx
+        simp only [wItem, Bool.and_eq_true] at hwx
+        exact bProjItem_ok hN recT recW Hrec x f hwx.1 (by omega)
+      · rw [isStarItem_eq hN recT recW Hrec it hs]
+        simp (config := { decide := true }) [projItemsKids, isStarItem, bStar, litTokens, goBlank]
+    · have hs' : isStarItem it = false := by simpa using hs
+      simp only [wItems, hs', Bool.false_eq_true, if_false] at hw
+      simp only [projItemsKids, hs', Bool.false_eq_true, if_false] at hf ⊢
+      have hall := allRule_map N _ _ (projItem_rule hN recT recW Hrec) (it :: rest)
+      have hfl : (interleave (N.lf "T__6" ",") ((it :: rest).map (projItem N recT))).filter (isRuleKid N "oC_ProjectionItem") =
+          (it :: rest).map (projItem N recT) := kidsOfRule_interleave hN (by decide) _ rfl _ hall
+      have hszI := sizeL_le_interleave (N.lf "T__6" ",") ((it :: rest).map (projItem N recT))
+      obtain ⟨n, hn⟩ := litToks_interleave hN recT recW Hrec _ hall
+      refine ⟨it :: rest, ?_, ?_⟩
+      · rw [hfl]
+        apply mapM'_map_id
+        intro x hx
+        have := size_le_sizeL (List.mem_map_of_mem (f := projItem N recT) hx)
+        have hwx := (List.all_eq_true.1 hw) x hx
+        simp only [wItem, Bool.and_eq_true] at hwx
+        exact bProjItem_ok hN recT recW Hrec x f hwx.1 (by omega)
+      · simp only [bStar, litTokens, kids_nd, hn]
+        cases n <;> simp (config := { decide := true }) [List.replicate_succ]
+
 theorem bProjection_ok (p : Projection) (f : Nat) (hw : wProjBody recW p = true) (hf : 2 * size (tProjBody N recT p) + 2 ≤ f) :
     bProjection N f (tProjBody N recT p) = .ok p := by
   obtain ⟨d, items, order, skip, limit⟩ := p
@@ -170,12 +231,12 @@ theorem bProjection_ok (p : Projection) (f : Nat) (hw : wProjBody recW p = true)
   have hl : optList limit (fun e => N.nd "oC_Limit" [N.lf "LIMIT" "limit", exprNode N (recT e)]) = optList (limit.map gl) (N.nd "oC_Limit") :=
     optList_nd N _ gl limit
   have hsz : size (tProjBody N recT ⟨d, items, order, skip, limit⟩) =
-      1 + (sizeL (if d then [N.lf "DISTINCT" "distinct"] else []) + (1 + sizeL (interleave (N.lf "T__6" ",") (items.map (projItem N recT)))) +
+      1 + (sizeL (if d then [N.lf "DISTINCT" "distinct"] else []) + (1 + sizeL (projItemsKids N recT items)) +
         sizeL (optList order (orderNode N recT)) + sizeL (optList skip (fun e => N.nd "oC_Skip" [N.lf "L_SKIP" "skip", exprNode N (recT e)])) +
         sizeL (optList limit (fun e => N.nd "oC_Limit" [N.lf "LIMIT" "limit", exprNode N (recT e)]))) := by
     simp [tProjBody]; omega
   rw [hsz] at hf
-  obtain ⟨k1, k2, k3, k4, k5⟩ := proj_kids hN recT recW Hrec d (interleave (N.lf "T__6" ",") (items.map (projItem N recT)))
+  obtain ⟨k1, k2, k3, k4, k5⟩ := proj_kids hN recT recW Hrec d (projItemsKids N recT items)
     (order.map go) (skip.map gs) (limit.map gl)
   have e2 : (order.map go).map (N.nd "oC_Order") = order.map (orderNode N recT) := by cases order <;> rfl
   have e3 : (skip.map gs).map (N.nd "oC_Skip") = skip.map (fun e => N.nd "oC_Skip" [N.lf "L_SKIP" "skip", exprNode N (recT e)]) := by
@@ -191,22 +252,10 @@ theorem bProjection_ok (p : Projection) (f : Nat) (hw : wProjBody recW p = true)
   have b4 := bSubExpr_ok hN recT recW Hrec _ "oC_Limit" "LIMIT" "limit" (by decide) limit f k4 (by intro e h; subst h; exact hwl)
     (by intro e h; subst h; rw [sizeL_optList_some (fun e => N.nd "oC_Limit" [N.lf "LIMIT" "limit", exprNode N (recT e)])] at hf
         simp only [size_nd, sizeL_cons', size_lf, sizeL_nil'] at hf ⊢; omega)
-  have hall := allRule_map N _ _ (projItem_rule hN recT recW Hrec) items
-  have hfl : (interleave (N.lf "T__6" ",") (items.map (projItem N recT))).filter (isRuleKid N "oC_ProjectionItem") = items.map (projItem N recT) :=
-    kidsOfRule_interleave hN (by decide) _ rfl _ hall
-  have hszI := sizeL_le_interleave (N.lf "T__6" ",") (items.map (projItem N recT))
-  have hm : mapM' (bProjItem N f) (items.map (projItem N recT)) = .ok items := by
-    apply mapM'_map_id
-    intro it hit
-    have := size_le_sizeL (List.mem_map_of_mem (f := projItem N recT) hit)
-    have hwit := (List.all_eq_true.1 hwi) it hit
-    simp only [Bool.and_eq_true] at hwit
-    exact bProjItem_ok hN recT recW Hrec it f hwit.1 (by omega)
-  obtain ⟨n, hn⟩ := litToks_interleave hN recT recW Hrec _ hall
+  obtain ⟨xs, hm, hxs⟩ := projItems_ok hN recT recW Hrec items f hwi (by omega)
   unfold bProjection
   simp only [tProjBody, ho, hs, hl] at k1 k2 k3 k4 k5 b2 b3 b4 ⊢
-  simp only [k1, k5, b2, b3, b4, kidsOfRule, kids_nd, hfl, hm, litTokens, hn]
-  cases n <;> simp (config := { decide := true }) [List.replicate_succ]
+  simp only [k1, k5, b2, b3, b4, kidsOfRule, kids_nd, hm, hxs]
 
 /-! ### reading clauses -/
 
